@@ -320,7 +320,8 @@ def h_fold_deg(d2: float, sp2: int, t: int, pick: int) -> bool:
         return False
     note("fold-deg", len(a.experienced_route), len(a.remaining_route))
     rem_a = tuple(l for l in a.remaining_route if l.start != l.end)  # an undriven stub may stay listed: it is no road
-    return (a.experienced_route == b.experienced_route and rem_a == b.remaining_route
+    rem_b = tuple(l for l in b.remaining_route if l.start != l.end)
+    return (a.experienced_route == b.experienced_route and rem_a == rem_b
             and a.remaining_time_seconds == b.remaining_time_seconds and feq(a.traversal_distance_km, b.traversal_distance_km))
 
 
